@@ -52,13 +52,20 @@ impl Check for C02 {
         LANGS.to_vec()
     }
     fn floors(&self) -> Vec<(&'static str, f64)> {
-        vec![("tree:erroneous", 0.30), ("tree:missing", 0.03), ("text:invalid_utf8", 0.05), ("text:crlf", 0.04), ("tree:depth>500", 0.003), ("tree:nodes>10000", 0.003), ("with_edits", 0.15), ("with_ranges", 0.05)]
+        vec![("tree:erroneous", 0.30), ("tree:missing", 0.03), ("text:invalid_utf8", 0.05), ("text:crlf", 0.04), ("tree:depth>500", 0.003), ("tree:nodes>10000", 0.003), ("with_edits", 0.15), ("with_ranges", 0.05), ("text:bom", 0.02)]
     }
     fn run_case(&self, ctx: &mut Ctx, t: &mut Tape) {
         let lname = pick_lang(t, LANGS, &[28, 13, 11, 10, 11, 9, 10, 8]);
         let lang = lang::zoo(lname);
         let class = doc::gen_class(t, &[34, 28, 12, 14, 2, 10]);
-        let bytes = doc::gen_doc(lang, class, t);
+        let mut bytes = doc::gen_doc(lang, class, t);
+        // a byte order mark in front (the lexer skips it at offset 0; it still counts as three bytes of row 0)
+        if t.pct(5) {
+            let mut b = vec![0xEF, 0xBB, 0xBF];
+            b.extend_from_slice(&bytes);
+            bytes = b;
+            ctx.label("text:bom");
+        }
         let mut text = Text::new(bytes);
         ctx.label(class.name());
         ctx.label(format!("lang:{lname}"));
